@@ -1,27 +1,28 @@
 //! Instance generation shared by the drivers (seeded; DESIGN.md 5.2).
 use crate::model::*;
+use rand::{rngs::StdRng, Rng, SeedableRng};
 
-/// `fam`: lifted | lifted_nodepth | longarc | knapsack | setpack | setpack_longarc | mixed | allimpacted
+/// `fam`: lifted | lifted_nodepth | longarc | knapsack | setpack | setpack_longarc | mixed | allimpacted | longarcs
 pub fn gen_model(fam: &str, seed: u64, maxn: usize, tiny: bool) -> Model {
-    let k = seed % 97;
+    let mut r = StdRng::seed_from_u64(seed ^ 0x9e3779b97f4a7c15);
     let pick = match fam {
-        "mixed" => ["lifted", "lifted", "lifted_nodepth", "longarc", "knapsack", "setpack", "setpack_longarc", "lifted"][(seed % 8) as usize],
-        "allimpacted" => ["lifted", "lifted", "lifted_nodepth", "knapsack", "setpack", "lifted"][(seed % 6) as usize],
-        "longarcs" => ["longarc", "longarc", "setpack_longarc"][(seed % 3) as usize],
+        "mixed" => ["lifted", "lifted", "lifted_nodepth", "longarc", "knapsack", "setpack", "setpack_longarc", "lifted"][r.gen_range(0..8)],
+        "allimpacted" => ["lifted", "lifted", "lifted_nodepth", "knapsack", "setpack", "lifted"][r.gen_range(0..6)],
+        "longarcs" => ["longarc", "longarc", "setpack_longarc"][r.gen_range(0..3)],
         f => f,
     };
-    let rub = [RubMode::None, RubMode::Exact, RubMode::Slack][(k % 3) as usize];
-    let dom = [DomMode::None, DomMode::Exact, DomMode::None, DomMode::Keyed][(k / 3 % 4) as usize];
-    let n = if tiny { maxn - (k as usize / 12) % 3 } else { maxn };
-    let b = 3 + (k as usize / 7) % 3;
-    let mm = 2 + (k as usize / 5) % 2;
+    let rub = [RubMode::None, RubMode::None, RubMode::Exact, RubMode::Slack][r.gen_range(0..4)];
+    let dom = [DomMode::None, DomMode::Exact, DomMode::None, DomMode::Keyed][r.gen_range(0..4)];
+    let n = if tiny { maxn - r.gen_range(0..3).min(maxn - 2) } else { maxn };
+    let b = r.gen_range(3..=5);
+    let mm = r.gen_range(2..=3);
     match pick {
         "lifted" => Model::random_lifted(seed, n, b, mm, true, false, rub, dom),
         "lifted_nodepth" => Model::random_lifted(seed, n, b, mm, false, false, RubMode::None, dom),
         "longarc" => Model::random_lifted(seed, n, b, mm, false, true, RubMode::None, dom),
         "knapsack" => Model::random_knapsack(seed, n, rub, dom),
-        "setpack" => Model::random_setpack(seed, n.min(6), rub, dom, false),
-        "setpack_longarc" => Model::random_setpack(seed, n.min(6), rub, dom, true),
+        "setpack" => Model::random_setpack(seed, n.min(7), rub, dom, false),
+        "setpack_longarc" => Model::random_setpack(seed, n.min(7), rub, dom, true),
         x => panic!("unknown family {x}"),
     }
 }
